@@ -92,7 +92,7 @@ class RuntimeStartError(Exception):
 LOCK_WAITED = [0.0]
 
 
-def real_perm_data_batch(jobs, lock_wait_s):
+def real_perm_data_batch(jobs, lock_wait_s, job_s=240):
     """jobs: list of (circuit, model).  Runs the real caching part of the SeqPAM workflow
     ([SetModelPass, ForEachBlockPass(EmbedAllPermutationsPass(QSearch))]) for all jobs on ONE
     bqskit runtime.  The machine-wide runtime lock (/work/RUNTIME_LOCK.md) is held for the
@@ -168,7 +168,7 @@ def real_perm_data_batch(jobs, lock_wait_s):
             res = None
             for attempt in range(2):
                 try:
-                    signal.alarm(240)
+                    signal.alarm(job_s)
                     if state['comp'] is None:
                         start()
                     oc, data = state['comp'].compile(c, wf, request_data=True)
@@ -195,7 +195,7 @@ def real_perm_data_batch(jobs, lock_wait_s):
         lockf.close()
 
 
-def run_real_cases(specs, lock_wait_s):
+def run_real_cases(specs, lock_wait_s, job_s=240):
     """all 'real' PAM cases of a check: inputs built first, ONE runtime under the lock, oracles
     evaluated after the lock is released"""
     from bqskit.ir.circuit import Circuit  # noqa: F401
@@ -206,7 +206,7 @@ def run_real_cases(specs, lock_wait_s):
         model = MachineModel(sp['N'], CouplingGraph([tuple(e) for e in sp['edges']], sp['N']))
         jobs.append((gen_pam_circuit(sp), model))
     try:
-        prepared = real_perm_data_batch(jobs, lock_wait_s)
+        prepared = real_perm_data_batch(jobs, lock_wait_s, job_s)
     except RuntimeStartError as e:
         prepared = [e] * len(specs)
     out = []
@@ -330,9 +330,11 @@ def run_pam_case(spec, prepared=None):
     U_in = c.get_unitary().numpy if N <= 7 else None
     data = PassData(c)
     data[ForEachBlockPass.key] = [block_datas]
-    pr = spec['params']
-    kw = dict(decay_delta=pr[0], decay_reset_interval=pr[1], decay_reset_on_gate=pr[2],
-              extended_set_size=pr[3], extended_set_weight=pr[4])
+    # incoming mappings (an earlier mapping stage may have left non-identity ones)
+    im0, fm0 = list(spec.get('im0') or range(n)), list(spec.get('fm0') or range(n))
+    data.initial_mapping, data.final_mapping = list(im0), list(fm0)
+    kw = H.params_kw(spec['params'])
+    kwl = H.params_kw(spec.get('lparams') or spec['params'])
     snap = {}
 
     def rep(extra=None):
@@ -355,8 +357,12 @@ def run_pam_case(spec, prepared=None):
                             'connected machine', rep({'raised': str(e)[:200]}), True))
         return res
     snap['P'] = list(data.placement)
-    layout = PAMLayoutPass(spec['layout'], spec['gcw'], **kw) if spec['layout'] else None
+    layout = PAMLayoutPass(spec['layout'], spec['gcw'], **kwl) if spec['layout'] else None
     routing = PAMRoutingPass(spec['gcw'], **kw)
+    if spec.get('adv'):
+        H.adversarial_heuristic(routing, spec['seed'] + 11, spec['adv'])
+        if layout is not None:
+            H.adversarial_heuristic(layout, spec['seed'] + 12, spec['adv'])
     try:
         if layout is not None:
             H.instrument(layout, rec_l)
@@ -364,6 +370,12 @@ def run_pam_case(spec, prepared=None):
         snap['pl'] = list(data.placement)
         H.instrument(routing, rec_r)
         H.run_recorded(routing, c, data, rec_r, True)
+    except H.ExtSetBlowup as e:
+        res['raised'] = ('ext-set-blowup', 'pam', str(e))
+        res['ext_max'] = max(rec_l.ext_max, rec_r.ext_max)
+        res['viol'].append(H.blowup_violation(
+            spec, 'layout' if 'pl' not in snap else 'routing', e, rep()))
+        return res
     except (RuntimeError, ValueError, TypeError, IndexError, KeyError, AssertionError) as e:
         # the machine is connected, the placement valid, the permutation data complete:
         # the PAM passes have no reason to fail
@@ -375,6 +387,7 @@ def run_pam_case(spec, prepared=None):
                             f'on a valid radix-{r} input (connected machine, valid placement, '
                             'complete permutation data)', rep({'raised': str(e)[:200]}), True))
         return res
+    res['ext_max'] = max(rec_l.ext_max, rec_r.ext_max)
     snap['fm4'] = list(data.final_mapping)
     snap['pi'] = list(rec_r.pi)
     out_data = data[PAMRoutingPass.out_data_key]
@@ -400,6 +413,29 @@ def run_pam_case(spec, prepared=None):
                               'pre': tuple(od['pre_perm']), 'post': tuple(od['post_perm']),
                               'U': od['original_utry'].numpy,
                               'V': op.get_unitary().numpy})
+    # the repo's own PAM verification (verify.py: Tag / CalculatePAMErrors / UnTag, run here
+    # on the whole routed circuit instead of per partition) must agree with the measured
+    # hypothesis below: exact fabricated data => error 0
+    verr = None
+    if N <= 7 and n <= 6 and r == 2:      # verify.py builds PermutationGates: qubits only
+        from bqskit.passes.mapping.verify import (
+            CalculatePAMErrorsPass, TagPAMBlockDataPass, UnTagPAMBlockDataPass,
+        )
+        keep_out = dict(out_data)
+        try:
+            vc = c.copy()
+            vd = PassData(vc)
+            vd[PAMRoutingPass.out_data_key] = dict(out_data)
+            asyncio.run(TagPAMBlockDataPass().run(vc, vd))
+            asyncio.run(CalculatePAMErrorsPass().run(vc, vd))
+            asyncio.run(UnTagPAMBlockDataPass().run(vc, vd))
+            verr = float(vd.error)
+            if [tab.op_text(op) for op in vc] != routed_texts:
+                verr = 9.0      # tagging and untagging must give the routed circuit back
+        except Exception as e:      # noqa: BLE001
+            verr = f'{type(e).__name__}: {str(e)[:120]}'
+        out_data = keep_out
+    res['verify_err'] = verr
     asyncio.run(ApplyPlacement().run(c, data))
     snap['pl5'] = list(data.placement)
     snap['im5'] = list(data.initial_mapping)
@@ -411,7 +447,6 @@ def run_pam_case(spec, prepared=None):
     moves, stats = H.events_to_moves(rec_r.events, in_ops, tab, pam=True)
     res['stats'] = stats
     gm = f'{N} ' + ' '.join(f'{a} {b}' for a, b in edges)
-    im0 = fm0 = list(range(n))
     head = ['wf', gm, str(n), ' '.join(map(str, sorted(tab.free))),
             f'{tab.swap_gid} {r}', ' '.join(in_texts),
             ' '.join(map(str, im0)), ' '.join(map(str, fm0))]
@@ -461,9 +496,10 @@ def run_pam_case(spec, prepared=None):
         ok, sig, why, phi = o_pam_unroute(in_desc, out_items, list(range(n)), None)
         if not ok:
             sig = 'pam-barrier-misplaced'
-    if ok and phi != snap['fm4']:
+    if ok and [phi[x] for x in fm0] != snap['fm4']:
         ok, sig, why = False, 'pam-final-mapping-mismatch', (
-            f'un-routing ends at {phi}, recorded final mapping {snap["fm4"]}')
+            f'un-routing ends at {phi}, i.e. final mapping {[phi[x] for x in fm0]} for the '
+            f'incoming {fm0}; recorded final mapping {snap["fm4"]}')
     if not ok:
         res['viol'].append((sig, 'PAM routing: ' + why,
                             rep({'routed': [(d['kind'], d['loc'], d.get('pre'), d.get('post'))
@@ -514,6 +550,15 @@ def run_pam_case(spec, prepared=None):
         res['viol'].append(('pam-variant-not-permuted-block',
                             f'a PAM variant block differs from (virtual swaps . original block '
                             f'. virtual swaps) by {worst:.3g}', rep({'snap': snap}), True))
+    if verr is not None and not res['viol']:
+        vtol = 1e-6 if spec['source'] == 'fab' else 1e-3
+        if isinstance(verr, str) or verr > vtol:
+            res['viol'].append((
+                'pam-verification-disagrees',
+                f'PAM verification (verify.py: TagPAMBlockDataPass, CalculatePAMErrorsPass, '
+                f'UnTagPAMBlockDataPass) reports {verr} for a routed circuit whose every variant '
+                f'block equals its permuted original (max deviation {worst:.2g}) and which the '
+                'independent oracles accept', rep({'snap': snap}), False))
     if U_in is not None:
         nrng = np.random.default_rng(spec['seed'] + 7)
         U_out = c.get_unitary().numpy
